@@ -445,3 +445,30 @@ Qed.
 
 Lemma rd_app_mid pre t post : rd (pre ++ t :: post) (len pre) = Some t.
 Proof. rewrite rd_app_r by lia. now rewrite N.sub_diag. Qed.
+
+(* memcpy(dst, s+i, n): the n bytes read, Oob if any lies outside the block *)
+Fixpoint rdn_f (n : nat) (s : list N) (i : N) : res (list N) :=
+  match n with
+  | O => Ok []
+  | S n' => let* b := rdr s i in let* t := rdn_f n' s (N.succ i) in Ok (b :: t)
+  end.
+Definition rdn (s : list N) (i n : N) : res (list N) := rdn_f (N.to_nat n) s i.
+
+Lemma rdn_f_ok n : forall s i, i + N.of_nat n <= len s ->
+  rdn_f n s i = Ok (firstn n (skipn (N.to_nat i) s)).
+Proof.
+  induction n as [|n IH]; intros s i Hi; [reflexivity|].
+  cbn [rdn_f]. destruct (rd_lt_some s i) as [b Hb]; [lia|]. unfold rdr. rewrite Hb. cbn [bind].
+  rewrite IH by lia. cbn [bind]. f_equal.
+  rewrite <- (N.add_0_r i) in Hb. rewrite <- rd_skipn in Hb.
+  rewrite N2Nat.inj_succ.
+  destruct (skipn (N.to_nat i) s) as [|y t] eqn:E; [discriminate|].
+  rewrite rd_cons_0 in Hb. injection Hb as ->. cbn [firstn]. f_equal. f_equal.
+  clear -E. revert s E. induction (N.to_nat i) as [|k IHk]; intros s E.
+  - simpl in E. subst s. reflexivity.
+  - destruct s as [|c s]; [discriminate|]. simpl in E. simpl. now apply IHk.
+Qed.
+Lemma rdn_ok s i n : i + n <= len s -> rdn s i n = Ok (sub s i (i + n)).
+Proof.
+  intros H. unfold rdn, sub. rewrite rdn_f_ok by lia. do 3 f_equal. lia.
+Qed.
